@@ -14,8 +14,10 @@ import (
 
 type varInfo struct {
 	coq, typ string
-	alias    ast.Expr // the variable stands for this path (a local bound to a part of the state)
-	seq      int      // order of declaration (loop-carried variables are listed in this order)
+	alias    ast.Expr  // the variable stands for this path (a local bound to a part of the state)
+	seq      int       // order of declaration (loop-carried variables are listed in this order)
+	fresh    string    // the variable was last assigned &T{…} (a new object nobody else refers to): T
+	freshEnd token.Pos // end of that assignment: no other mention of the variable may lie between it and a store through it
 }
 
 type env struct {
@@ -27,7 +29,7 @@ type env struct {
 var coqKeywords = map[string]bool{"as": true, "at": true, "cofix": true, "else": true, "end": true, "exists": true,
 	"fix": true, "for": true, "forall": true, "fun": true, "if": true, "in": true, "let": true, "match": true, "mod": true,
 	"return": true, "then": true, "using": true, "where": true, "with": true, "Set": true, "Prop": true, "Type": true,
-	"nil": true, "cons": true, "fst": true, "snd": true, "pair": true, "tt": true, "events_": true, "true": true, "false": true,
+	"nil": true, "cons": true, "fst": true, "snd": true, "pair": true, "tt": true, "events_": true, "spawned_": true, "fn_": true, "true": true, "false": true,
 	"Some": true, "None": true, "inl": true, "inr": true, "negb": true, "andb": true, "orb": true, "length": true,
 	"map": true, "app": true, "Z": true, "bool": true, "list": true, "unit": true, "option": true}
 
@@ -36,6 +38,25 @@ func (e *env) bindAlias(goName, typ string, path ast.Expr) *env {
 	n, _ := e.bind(goName, typ)
 	v := n.vars[goName]
 	v.alias = path
+	n.vars[goName] = v
+	return n
+}
+
+// withFresh: the variable now holds (does not hold any more) the address of a new object of
+// struct type T that nothing else refers to
+func (e *env) withFresh(goName, typ string, end ...token.Pos) *env {
+	v, ok := e.vars[goName]
+	if !ok || (v.fresh == typ && typ == "") {
+		return e
+	}
+	if len(end) > 0 {
+		v.freshEnd = end[0]
+	}
+	n := &env{t: e.t, vars: make(map[string]varInfo, len(e.vars)), used: e.used}
+	for k, x := range e.vars {
+		n.vars[k] = x
+	}
+	v.fresh = typ
 	n.vars[goName] = v
 	return n
 }
@@ -70,8 +91,14 @@ type fctx struct {
 	sawPanic bool
 	emits    bool // the function calls event callbacks (assumed / discovered)
 	sawEmit  bool
+	spawns   bool // the function starts goroutines (assumed / discovered)
+	sawSpawn bool
+	spawnT   string
+	atSelect bool // until_select: the term being built is "the select was reached"
 	inputs   map[string]token.Pos
 	stateCoq string // Coq name of the state variable
+	rhsFresh string // the right-hand side of the assignment being translated is &T{…}: T
+	rhsEnd   token.Pos
 	guards   []string
 	clock    map[token.Pos]int // clock call sites -> number of readings
 	oracles  map[string]bool
@@ -94,15 +121,30 @@ func (t *T) translateFunc(fi *funcInfo, from token.Pos) {
 	if fi.busy {
 		t.fail(from, "recursion through %s", fi.coq)
 	}
+	if fi.dispatch != nil {
+		t.translateDispatcher(fi, from)
+		return
+	}
 	fi.busy = true
 	d := fi.decl
 	if d.Type.TypeParams != nil && d.Recv == nil {
 		// type parameters are fine as long as the type map gives them a Coq type
 	}
+	valueRecv := false
 	if d.Recv != nil {
 		r := d.Recv.List[0]
+		if base := recvBase(d); t.structs[base] == nil && t.named[base] != "" && !strings.HasPrefix(typeStr(r.Type), "*") &&
+			len(r.Names) == 1 && r.Names[0].Name != "_" && !fi.synth {
+			// value receiver of a named non-struct type (a slice type): a copy, read as an
+			// ordinary first parameter; nothing the function does to it is seen by the caller
+			valueRecv = true
+			fi.params = append(fi.params, fieldInfo{r.Names[0].Name, base})
+		}
+	}
+	if d.Recv != nil && !valueRecv {
+		r := d.Recv.List[0]
 		fi.recvStruct = recvBase(d)
-		if len(r.Names) == 1 {
+		if len(r.Names) == 1 && r.Names[0].Name != "_" {
 			fi.recvName = r.Names[0].Name
 		}
 		si := t.structs[fi.recvStruct]
@@ -114,6 +156,9 @@ func (t *T) translateFunc(fi *funcInfo, from token.Pos) {
 		}
 	}
 	for _, p := range d.Type.Params.List {
+		if fi.synth {
+			break // body of a go statement: the parameters (captured variables) are preset
+		}
 		ty := typeStr(p.Type)
 		if len(p.Names) == 0 {
 			t.fail(p.Pos(), "unnamed parameter")
@@ -140,7 +185,8 @@ func (t *T) translateFunc(fi *funcInfo, from token.Pos) {
 	}
 	var body string
 	var f *fctx
-	stateful, panics, emits := false, false, false
+	stateful, panics, emits, spawns := false, false, false, false
+	spawnT := ""
 	stmts := d.Body.List
 	if fi.cfg.LoopBody {
 		fs, ok := (ast.Stmt)(nil), false
@@ -153,8 +199,21 @@ func (t *T) translateFunc(fi *funcInfo, from token.Pos) {
 		}
 		stmts = loop.Body.List
 	}
+	if fi.cfg.UntilSelect {
+		idx := -1
+		for i, s := range stmts {
+			if _, isSel := s.(*ast.SelectStmt); isSel {
+				idx = i
+				break
+			}
+		}
+		if idx < 0 {
+			t.fail(d.Pos(), "until_select: the function has no top-level select statement")
+		}
+		stmts = stmts[:idx]
+	}
 	for pass := 0; ; pass++ {
-		f = &fctx{t: t, fi: fi, stateful: stateful, panics: panics, emits: emits, clock: map[token.Pos]int{}, oracles: map[string]bool{}, inputs: map[string]token.Pos{}}
+		f = &fctx{t: t, fi: fi, stateful: stateful, panics: panics, emits: emits, spawns: spawns, clock: map[token.Pos]int{}, oracles: map[string]bool{}, inputs: map[string]token.Pos{}}
 		e := newEnv(t)
 		if fi.recvName != "" {
 			e, _ = e.bind(fi.recvName, "*"+fi.recvStruct)
@@ -169,6 +228,12 @@ func (t *T) translateFunc(fi *funcInfo, from token.Pos) {
 			f.stateCoq = e.vars[sn].coq
 		}
 		body = f.block(stmts, e, 2, func(e2 *env, ind int) string {
+			if fi.cfg.UntilSelect {
+				f.atSelect = true
+				r := sp(ind) + f.ret(nil, e2)
+				f.atSelect = false
+				return r
+			}
 			if len(fi.results) > 0 {
 				t.fail(d.Body.Rbrace, "missing return")
 			}
@@ -177,16 +242,22 @@ func (t *T) translateFunc(fi *funcInfo, from token.Pos) {
 		if emits {
 			body = sp(2) + "let events_ := [] in\n" + body
 		}
-		if f.sawWrite == stateful && f.sawPanic == panics && f.sawEmit == emits {
+		if spawns {
+			body = sp(2) + "let spawned_ : list " + spawnT + " := [] in\n" + body
+		}
+		if f.sawWrite == stateful && f.sawPanic == panics && f.sawEmit == emits && f.sawSpawn == spawns {
 			break
 		}
 		emits = emits || f.sawEmit
+		spawns = spawns || f.sawSpawn
+		spawnT = f.spawnT
 		if pass > 3 {
 			t.fail(d.Pos(), "internal: effect flags of %s do not settle", fi.coq)
 		}
 		stateful, panics = f.sawWrite || stateful, f.sawPanic || panics
 	}
 	fi.stateful, fi.panics, fi.emits = stateful, panics, emits
+	fi.spawns, fi.spawnT = spawns, spawnT
 	// clock readings: one parameter per reading, in source order
 	var sites []token.Pos
 	for p := range f.clock {
@@ -229,7 +300,10 @@ func (t *T) translateFunc(fi *funcInfo, from token.Pos) {
 		e, recvCoqName = e.bind(fi.recvName, "")
 		sig = append(sig, fmt.Sprintf("(%s : %s)", recvCoqName, t.structs[fi.recvStruct].cfg.Coq))
 	} else if fi.recvStruct != "" {
-		t.fail(d.Pos(), "unnamed receiver")
+		if fi.cfg.State == "" && stateful {
+			t.fail(d.Pos(), "unnamed receiver of a function that changes its receiver")
+		}
+		sig = append(sig, fmt.Sprintf("(_ : %s)", t.structs[fi.recvStruct].cfg.Coq)) // unnamed receiver: never mentioned
 	}
 	for _, p := range fi.params {
 		if p.name == "_" {
@@ -247,8 +321,18 @@ func (t *T) translateFunc(fi *funcInfo, from token.Pos) {
 	for _, r := range fi.results {
 		rts = append(rts, paren(t.coqType(d.Pos(), r)))
 	}
+	if fi.cfg.UntilSelect {
+		inner := "unit"
+		if len(rts) > 0 {
+			inner = strings.Join(rts, " * ")
+		}
+		rts = []string{"(option (" + inner + "))"}
+	}
 	if emits {
 		rts = append(rts, "(list gostring)")
+	}
+	if spawns {
+		rts = append(rts, "(list "+spawnT+")")
 	}
 	resT := "unit"
 	if len(rts) > 0 {
@@ -290,15 +374,26 @@ func (t *T) translateFunc(fi *funcInfo, from token.Pos) {
 	if emits {
 		notes = append(notes, "returns the list of emitted events (callbacks called, in order) last")
 	}
+	if spawns {
+		notes = append(notes, "returns the list of goroutines it started (go statements, in order; the captured values) last")
+	}
 	if fi.cfg.LoopBody {
 		notes = append(notes, "ONE iteration of the function's `for { … }` loop")
+	}
+	if fi.cfg.UntilSelect {
+		notes = append(notes, "ONLY the part before the function's first `select` statement: the result is Some (results) for a return inside that part, None = the select was reached (the function blocks there; the rest is not translated)")
+	}
+	what := "func " + r + d.Name.Name
+	if fi.synth {
+		what = "body of the goroutine `go func() { … }()` started by " + fi.spawnedBy
+		notes = append(notes, "parameters after the state: the variables it captured ("+orNone(strings.Join(fi.captured, ", "))+"), none of them assigned after the go statement; its clock readings are its own (it runs when the scheduler lets it)")
 	}
 	note := ""
 	if len(notes) > 0 {
 		note = "\n   " + strings.Join(notes, "; ")
 	}
-	fi.text = fmt.Sprintf("(* func %s%s\n   %s%s *)\nDefinition %s %s\n  : %s :=\n%s.\n",
-		r, d.Name.Name, t.srcInfo(d.Pos(), d.End()), note, fi.coq, strings.Join(sig, " "), retT, body)
+	fi.text = fmt.Sprintf("(* %s\n   %s%s *)\nDefinition %s %s\n  : %s :=\n%s.\n",
+		what, t.srcInfo(d.Pos(), d.End()), note, fi.coq, strings.Join(sig, " "), retT, body)
 	t.out = append(t.out, fi.text)
 	fi.busy, fi.done = false, true
 }
@@ -327,16 +422,26 @@ func (f *fctx) stateCoqType() string {
 		}
 		t.fail(f.fi.decl.Pos(), "state parameter %s not found", f.fi.cfg.State)
 	}
-	if f.fi.recvStruct != "" {
+	if f.fi.recvStruct != "" && f.fi.recvName != "" {
 		return t.structs[f.fi.recvStruct].cfg.Coq
 	}
-	return "unit"
+	return "unit" // no state variable (plain function, or a receiver that is never named)
 }
 
 // the term a `return` produces
 func (f *fctx) ret(results []string, e *env) string {
+	if f.fi.cfg.UntilSelect {
+		if f.atSelect {
+			results = []string{"None"}
+		} else {
+			results = []string{"(Some " + paren(tuple(results)) + ")"}
+		}
+	}
 	if f.emits {
 		results = append(append([]string{}, results...), "events_")
+	}
+	if f.spawns {
+		results = append(append([]string{}, results...), "spawned_")
 	}
 	res := "tt"
 	if len(results) > 0 {
@@ -410,7 +515,26 @@ func (f *fctx) block(list []ast.Stmt, e *env, ind int, k cont) string {
 
 // a nested block: what it declares goes out of scope at its end
 func (f *fctx) scoped(list []ast.Stmt, e *env, ind int, k cont) string {
-	return f.block(list, e, ind, func(_ *env, ind2 int) string { return k(e, ind2) })
+	return f.block(list, e, ind, func(inner *env, ind2 int) string { return k(mergeFresh(e, inner), ind2) })
+}
+
+// mergeFresh: the outer environment after a nested block: what the block declared is gone,
+// but what it did to the "just assigned &T{…}" status of the outer variables stays (each path
+// has its own continuation, so the inner status is the status on this path)
+func mergeFresh(outer, inner *env) *env {
+	res := outer
+	for name, ov := range outer.vars {
+		iv, ok := inner.vars[name]
+		if !ok || iv.coq != ov.coq || (iv.fresh == ov.fresh && iv.freshEnd == ov.freshEnd) {
+			continue
+		}
+		if iv.fresh == "" {
+			res = res.withFresh(name, "")
+		} else {
+			res = res.withFresh(name, iv.fresh, iv.freshEnd)
+		}
+	}
+	return res
 }
 
 func (f *fctx) stmt(s ast.Stmt, e *env, ind int, k cont) string {
@@ -491,8 +615,15 @@ func (f *fctx) stmt(s ast.Stmt, e *env, ind int, k cont) string {
 			f.checkSkippable(call, e)
 			return k(e, ind)
 		case "emit":
-			if len(call.Args) != 0 || len(f.loop) > 0 {
-				t.fail(call.Pos(), "event callback with arguments / inside a loop")
+			if c.in.On != "" && len(call.Args) == 1 && exprText(call.Args[0]) == c.in.On {
+				// an effect on an object outside the state, named by its source text in the
+				// configuration ("on"): recorded as an event
+				f.checkPure(call.Args[0], e)
+			} else if len(call.Args) != 0 {
+				t.fail(call.Pos(), "event callback with arguments (other than the one the configuration names)")
+			}
+			if len(f.loop) > 0 {
+				t.fail(call.Pos(), "event callback inside a loop")
 			}
 			f.sawEmit = true
 			return fmt.Sprintf("%slet events_ := events_ ++ [%s] in\n", sp(ind), c.in.Coq) + k(e, ind)
@@ -507,6 +638,10 @@ func (f *fctx) stmt(s ast.Stmt, e *env, ind int, k cont) string {
 		return k(e, ind)
 	case *ast.RangeStmt:
 		return f.rangeStmt(s, e, ind, k)
+	case *ast.GoStmt:
+		return f.goStmt(s, e, ind, k)
+	case *ast.SwitchStmt:
+		return f.switchStmt(s, e, ind, k)
 	case *ast.BranchStmt:
 		if s.Label != nil || len(f.loop) == 0 {
 			t.fail(s.Pos(), "%s outside a translated loop / with a label", s.Tok)
@@ -690,7 +825,15 @@ func (f *fctx) assign(pos token.Pos, lhs, rhs []ast.Expr, define bool, declT str
 	gs := f.takeGuards(g0)
 	return f.guarded(gs, ind, func(ind int) string {
 		if len(lhs) == 1 {
+			f.rhsFresh = ""
+			if u, isAddr := unparen(rhs[0]).(*ast.UnaryExpr); isAddr && u.Op == token.AND {
+				if cl, isLit := unparen(u.X).(*ast.CompositeLit); isLit && cl.Type != nil {
+					f.rhsFresh = typeStr(cl.Type)
+					f.rhsEnd = rhs[0].End()
+				}
+			}
 			line, e2 := f.assignTo(lhs[0], terms[0], types[0], e, define)
+			f.rhsFresh = ""
 			if line == "" {
 				return k(e2, ind)
 			}
@@ -758,6 +901,11 @@ func (f *fctx) bindResults(pos token.Pos, lhs []ast.Expr, term string, types []s
 	if define && !fresh {
 		t.fail(pos, "no new variables on left side of :=")
 	}
+	for _, l := range lhs {
+		if id, isId := l.(*ast.Ident); isId && id.Name != "_" {
+			e = e.withFresh(id.Name, "")
+		}
+	}
 	out := fmt.Sprintf("%slet %s := %s in\n", sp(ind), pattern(names), term)
 	for _, l := range later {
 		var line string
@@ -804,6 +952,7 @@ func (f *fctx) assignTo(l ast.Expr, term, ty string, e *env, define bool) (strin
 		if define && (!exists || !f.declaredHere(id)) {
 			var c string
 			e, c = e.bind(id.Name, defaultType(ty))
+			e = e.withFresh(id.Name, f.rhsFresh, f.rhsEnd)
 			return fmt.Sprintf("let %s := %s in", c, term), e
 		}
 		if !exists {
@@ -818,7 +967,7 @@ func (f *fctx) assignTo(l ast.Expr, term, ty string, e *env, define bool) (strin
 		if f.isState(id.Name) {
 			t.fail(l.Pos(), "assignment to the state variable %s itself", id.Name)
 		}
-		return fmt.Sprintf("let %s := %s in", v.coq, t.conv(l.Pos(), term, ty, v.typ)), e
+		return fmt.Sprintf("let %s := %s in", v.coq, t.conv(l.Pos(), term, ty, v.typ)), e.withFresh(id.Name, f.rhsFresh, f.rhsEnd)
 	}
 	if define {
 		t.fail(l.Pos(), "non-name on left side of :=")
@@ -905,13 +1054,42 @@ func (f *fctx) place(l ast.Expr, e *env) (root string, upd func(string) string, 
 			}, c.in.Ret[0]
 		}
 		t.fail(l.Pos(), "a call is not an assignable path")
+	case *ast.TypeAssertExpr:
+		// x.(*T).f = v  where x is a local of a sum type that was just assigned &T{…}: the
+		// object is new, nobody else refers to it, its dynamic type is known
+		id, isId := unparen(l.X).(*ast.Ident)
+		if !isId || l.Type == nil {
+			t.fail(l.Pos(), "store through a type assertion on anything but a local variable")
+		}
+		v, ok := e.vars[id.Name]
+		sc, isSum := t.cfg.Sums[v.typ]
+		to := typeStr(l.Type)
+		if !ok || !isSum || v.alias != nil {
+			t.fail(l.Pos(), "store through a type assertion on %s, which is not a local of a sum type", id.Name)
+		}
+		if !strings.HasPrefix(to, "*") || v.fresh == "" || v.fresh != to[1:] {
+			t.fail(l.Pos(), "store through %s.(%s): %s was not just assigned &%s{…} (the object may be shared: aliasing is not modelled)", id.Name, to, id.Name, strings.TrimPrefix(to, "*"))
+		}
+		if len(f.loop) > 0 {
+			t.fail(l.Pos(), "store through a type assertion inside a loop")
+		}
+		// between that assignment and this store the variable may only be mentioned as
+		// x.(*T).field (read or stored): any other mention could have copied the reference
+		if p := f.otherMention(id, v.freshEnd, l.Pos()); p.IsValid() {
+			t.fail(p, "%s is mentioned between its assignment &%s{…} and the store through %s.(%s) at line %d (the object may be shared)", id.Name, to[1:], id.Name, to, t.fset.Position(l.Pos()).Line)
+		}
+		return id.Name, func(nv string) string { return fmt.Sprintf("%s_%s %s", sc.Coq, to[1:], paren(nv)) }, to
 	case *ast.SelectorExpr:
 		r, up, ty := f.place(l.X, e)
 		si := t.structOf(ty)
 		if si == nil || si.cfg == nil {
 			t.fail(l.Pos(), "field of %s, which is not a configured struct", ty)
 		}
+		g0 := len(f.guards)
 		cur, _ := f.expr(l.X, e)
+		if _, viaAssert := unparen(l.X).(*ast.TypeAssertExpr); viaAssert {
+			f.guards = f.guards[:g0] // the dynamic type was established by place above
+		}
 		for _, fl := range si.kept {
 			if fl.name == l.Sel.Name {
 				return r, func(nv string) string {
@@ -1118,6 +1296,9 @@ func (f *fctx) rangeStmt(s *ast.RangeStmt, e *env, ind int, k cont) string {
 		if len(carried) > 0 {
 			fmt.Fprintf(&b, "%slet %s := %s in\n", sp(ind+4), pattern(carried), acc)
 		}
+		for _, g := range carriedGo {
+			e = e.withFresh(g, "")
+		}
 		b.WriteString(k(e, ind+4))
 		fmt.Fprintf(&b, "\n%send", sp(ind))
 		return b.String()
@@ -1180,7 +1361,10 @@ func (f *fctx) resolve(call *ast.CallExpr, e *env) *callee {
 	}
 	switch fn := fun.(type) {
 	case *ast.Ident:
-		if _, isVar := e.vars[fn.Name]; isVar {
+		if v, isVar := e.vars[fn.Name]; isVar {
+			if _, _, ok := funcSig(v.typ); ok && fullFuncTypes {
+				return &callee{kind: "fnval"}
+			}
 			t.fail(call.Pos(), "call of the function value %s", fn.Name)
 		}
 		if isZ(fn.Name) || fn.Name == "string" || fn.Name == "bool" {
@@ -1218,6 +1402,13 @@ func (f *fctx) resolve(call *ast.CallExpr, e *env) *callee {
 			t.fail(call.Pos(), "cannot type the receiver of .%s", fn.Sel.Name)
 		}
 		base := strings.TrimPrefix(rt, "*")
+		if _, isSum := t.cfg.Sums[rt]; isSum {
+			dc := t.findDispatch(rt, fn.Sel.Name)
+			if dc == nil {
+				t.fail(call.Pos(), "method %s called through the sum type %s: no \"dispatch\" entry", fn.Sel.Name, rt)
+			}
+			return &callee{kind: "func", fn: t.dispatcher(dc, call.Pos()), recv: fn.X}
+		}
 		if fi := t.funcs[base+"."+fn.Sel.Name]; fi != nil {
 			return &callee{kind: "func", fn: fi, recv: fn.X}
 		}
@@ -1226,6 +1417,11 @@ func (f *fctx) resolve(call *ast.CallExpr, e *env) *callee {
 		}
 		if c := intr("("+base+").*", fn.X); c != nil {
 			return c
+		}
+		if fullFuncTypes {
+			if _, _, ok := funcSig(f.typeOf(fn, e)); ok {
+				return &callee{kind: "fnval"} // call of a function-valued field
+			}
 		}
 		t.fail(call.Pos(), "call of (%s).%s: neither translated nor an intrinsic", base, fn.Sel.Name)
 	}
@@ -1277,6 +1473,14 @@ func (f *fctx) typeOf(x ast.Expr, e *env) string {
 		}
 	case *ast.StarExpr:
 		return strings.TrimPrefix(f.typeOf(x.X, e), "*")
+	case *ast.IndexExpr:
+		xt := t.under(f.typeOf(x.X, e))
+		if strings.HasPrefix(xt, "[]") {
+			return xt[2:]
+		}
+		if _, vt, ok := mapTypes(xt); ok {
+			return vt
+		}
 	case *ast.UnaryExpr:
 		if x.Op == token.AND {
 			return "*" + f.typeOf(x.X, e)
@@ -1336,7 +1540,7 @@ func (f *fctx) checkPure(top ast.Expr, e *env) {
 		case *ast.CallExpr:
 			c := f.resolve(x, e)
 			switch c.kind {
-			case "skip", "id", "fn", "conv", "const", "errtoken", "sprintf", "oracle", "field":
+			case "skip", "id", "fn", "conv", "const", "errtoken", "sprintf", "oracle", "field", "fnval":
 			case "builtin":
 				if c.key == "delete" {
 					f.t.fail(x.Pos(), "delete inside a dropped logging call")
@@ -1403,6 +1607,9 @@ func (f *fctx) callTerm(call *ast.CallExpr, c *callee, e *env) (term string, res
 		if fi.emits {
 			t.fail(call.Pos(), "call of %s, which emits events (not supported in a callee)", fi.coq)
 		}
+		if fi.spawns {
+			t.fail(call.Pos(), "call of %s, which starts goroutines (not supported in a callee)", fi.coq)
+		}
 		var parts []string
 		parts = append(parts, fi.coq)
 		for _, o := range fi.oracles {
@@ -1416,6 +1623,14 @@ func (f *fctx) callTerm(call *ast.CallExpr, c *callee, e *env) (term string, res
 			}
 			parts = append(parts, paren(r))
 			obj = c.recv
+			if fi.dispatch != nil {
+				if fi.panics {
+					t.fail(call.Pos(), "call of %s through the sum type: its methods can panic (only as an entry point, not from translated code)", fi.coq)
+				}
+				// a method call on the nil interface panics
+				f.guards = append(f.guards, fmt.Sprintf("match %s with %s_nil => true | _ => false end", r, t.cfg.Sums[fi.recvStruct].Coq))
+				obj = nil
+			}
 		}
 		var want []string
 		for i, p := range fi.params {
@@ -1461,6 +1676,16 @@ func (f *fctx) callTerm(call *ast.CallExpr, c *callee, e *env) (term string, res
 			}
 		}
 		return strings.Join(parts, " "), in.Ret, obj
+	case "fnval":
+		// a function value: a pure application; nil panics
+		fv, ft := f.expr(call.Fun, e)
+		ps, res, ok := funcSig(ft)
+		if !ok || res == "" {
+			t.fail(call.Pos(), "call of a function value of type %s (one result, no function-typed parameters)", ft)
+		}
+		as := f.args(call, ps, e)
+		f.guards = append(f.guards, fmt.Sprintf("match %s with None => true | Some _ => false end", fv))
+		return fmt.Sprintf("match %s with Some fn_ => fn_ %s | None => %s end", fv, strings.Join(as, " "), t.zero(call.Pos(), res)), []string{res}, nil
 	case "sprintf":
 		return f.sprintf(call, e), []string{"string"}, nil
 	case "clock":
@@ -1492,14 +1717,13 @@ func (f *fctx) callTerm(call *ast.CallExpr, c *callee, e *env) (term string, res
 		if len(call.Args) == 0 {
 			t.fail(call.Pos(), "error constructor without a message")
 		}
-		lit, ok := unparen(call.Args[0]).(*ast.BasicLit)
-		if !ok || lit.Kind != token.STRING {
+		s, ok := constString(call.Args[0])
+		if !ok {
 			t.fail(call.Pos(), "error constructor whose message is not a string literal")
 		}
 		for _, a := range call.Args[1:] {
 			f.checkPure(a, e)
 		}
-		s, _ := strconv.Unquote(lit.Value)
 		return "Err " + bytesTerm(s), []string{"error"}, nil
 	case "builtin":
 		return f.builtin(call, c, e)
@@ -1563,6 +1787,26 @@ func (f *fctx) sprintf(call *ast.CallExpr, e *env) string {
 	return strings.Join(parts, " ++ ")
 }
 
+// constString: a string literal, or string literals joined by +
+func constString(x ast.Expr) (string, bool) {
+	switch x := unparen(x).(type) {
+	case *ast.BasicLit:
+		if x.Kind != token.STRING {
+			return "", false
+		}
+		s, err := strconv.Unquote(x.Value)
+		return s, err == nil
+	case *ast.BinaryExpr:
+		if x.Op != token.ADD {
+			return "", false
+		}
+		a, ok1 := constString(x.X)
+		b, ok2 := constString(x.Y)
+		return a + b, ok1 && ok2
+	}
+	return "", false
+}
+
 func stripAddr(x ast.Expr) ast.Expr {
 	if u, ok := unparen(x).(*ast.UnaryExpr); ok && u.Op == token.AND {
 		return u.X
@@ -1575,7 +1819,7 @@ func (f *fctx) builtin(call *ast.CallExpr, c *callee, e *env) (string, []string,
 	switch c.key {
 	case "len":
 		x, xt := f.expr(call.Args[0], e)
-		if !strings.HasPrefix(xt, "[]") && xt != "string" {
+		if !strings.HasPrefix(t.under(xt), "[]") && xt != "string" {
 			t.fail(call.Pos(), "len of %s", xt)
 		}
 		return "slice_len " + paren(x), []string{"int"}, nil
@@ -1790,6 +2034,14 @@ func bytesTerm(s string) string {
 type assertCfg struct{ Pair, Val, Ok string }
 
 func (f *fctx) assertion(pos token.Pos, from, to string) assertCfg {
+	if sc, isSum := f.t.cfg.Sums[from]; isSum && strings.HasPrefix(to, "*") {
+		for _, v := range sc.Variants {
+			if v == to[1:] {
+				return assertCfg{Val: sc.Coq + "_as_" + v, Ok: sc.Coq + "_is_" + v}
+			}
+		}
+		f.t.fail(pos, "type assertion %s.(%s): not a variant of the sum", from, to)
+	}
 	key := "assert:" + from + "->" + to
 	in, ok := f.t.cfg.Intrinsics[key]
 	if !ok {
@@ -1934,9 +2186,18 @@ func (f *fctx) expr(x ast.Expr, e *env) (string, string) {
 		return fmt.Sprintf("%s %s", a.Val, paren(v)), to
 	case *ast.IndexExpr:
 		m, mt := f.expr(x.X, e)
+		if u := t.under(mt); strings.HasPrefix(u, "[]") {
+			// s[i] on a slice: panics when i is out of range
+			idx, it := f.expr(x.Index, e)
+			if !isZ(it) {
+				t.fail(x.Index.Pos(), "slice index of type %s", it)
+			}
+			f.guards = append(f.guards, fmt.Sprintf("orb (%s <? 0) (slice_len %s <=? %s)", paren(idx), paren(m), paren(idx)))
+			return fmt.Sprintf("nth (Z.to_nat %s) %s %s", paren(idx), paren(m), paren(t.zero(x.Pos(), strings.TrimPrefix(u[2:], "*")))), u[2:]
+		}
 		kt, vt, ok := mapTypes(mt)
 		if !ok {
-			t.fail(x.Pos(), "index into %s (only maps)", mt)
+			t.fail(x.Pos(), "index into %s (only maps and slices)", mt)
 		}
 		key, kty := f.expr(x.Index, e)
 		return fmt.Sprintf("map_index %s %s %s %s", t.eqb(x.Pos(), kt), paren(t.zero(x.Pos(), vt)), paren(m), paren(t.conv(x.Pos(), key, kty, kt))), vt
@@ -2003,6 +2264,11 @@ func (f *fctx) composite(x *ast.CompositeLit, e *env) (string, string) {
 	ignored := map[string]bool{}
 	if si.extern {
 		for _, ig := range t.cfg.Externs[si.name].Ignore {
+			ignored[ig] = true
+		}
+	}
+	if !si.extern && si.cfg != nil {
+		for _, ig := range si.cfg.Ignore {
 			ignored[ig] = true
 		}
 	}
@@ -2087,6 +2353,13 @@ func (f *fctx) binary(x *ast.BinaryExpr, e *env) (string, string) {
 		if at == "untyped nil" {
 			v, vt = b, bt
 		}
+		if _, _, isFn := funcSig(vt); isFn && fullFuncTypes && (x.Op == token.EQL || x.Op == token.NEQ) {
+			isNil := fmt.Sprintf("match %s with None => true | Some _ => false end", v)
+			if x.Op == token.EQL {
+				return isNil, "bool"
+			}
+			return "negb (" + isNil + ")", "bool"
+		}
 		if vt != "error" || (x.Op != token.EQL && x.Op != token.NEQ) {
 			t.fail(x.Pos(), "comparison of %s with nil", vt)
 		}
@@ -2118,6 +2391,9 @@ func (f *fctx) binary(x *ast.BinaryExpr, e *env) (string, string) {
 		return fmt.Sprintf("%s * %s", pa, pb), ty
 	case token.QUO, token.REM:
 		// Go: truncated division; panics when the divisor is zero
+		if ty == "float64" {
+			t.fail(x.Pos(), "%s on float64 (floats read as exact integers: only + - * and comparisons)", x.Op)
+		}
 		if n, isLit := new(big.Int).SetString(b, 10); !(isLit && n.Sign() != 0) {
 			f.guards = append(f.guards, fmt.Sprintf("%s =? 0", pb))
 		}
@@ -2136,4 +2412,237 @@ func (f *fctx) binary(x *ast.BinaryExpr, e *env) (string, string) {
 	}
 	t.fail(x.Pos(), "operator %s", x.Op)
 	return "", ""
+}
+
+// ---------------------------------------------------------------- go statements
+
+// go func() { … }()  — the body becomes a definition of its own (<Func>_go: the state and
+// the captured variables are its parameters), the statement appends the captured values to
+// the list of started goroutines the function returns last.  Nothing is said about WHEN the
+// body runs: that is the caller's (the model's) schedule.
+func (f *fctx) goStmt(s *ast.GoStmt, e *env, ind int, k cont) string {
+	t := f.t
+	if !t.cfg.GoStatements {
+		t.fail(s.Pos(), "go statement (opt-in: \"go_statements\" of the configuration)")
+	}
+	if len(f.loop) > 0 {
+		t.fail(s.Pos(), "go statement inside a loop")
+	}
+	if f.fi.synth {
+		t.fail(s.Pos(), "go statement inside the body of a goroutine")
+	}
+	lit, ok := s.Call.Fun.(*ast.FuncLit)
+	if !ok || len(s.Call.Args) != 0 || (lit.Type.Params != nil && len(lit.Type.Params.List) != 0) || (lit.Type.Results != nil && len(lit.Type.Results.List) != 0) {
+		t.fail(s.Pos(), "go statement other than `go func() { … }()`")
+	}
+	g := t.spawned[s.Pos()]
+	if g == nil {
+		// the variables of the enclosing function the body mentions
+		seen := map[string]bool{}
+		var names []string
+		ast.Inspect(lit.Body, func(n ast.Node) bool {
+			id, isId := n.(*ast.Ident)
+			if !isId || id.Obj == nil || id.Obj.Kind != ast.Var || id.Obj.Pos() >= lit.Pos() || seen[id.Name] {
+				return true
+			}
+			if _, isVar := e.vars[id.Name]; !isVar {
+				t.fail(id.Pos(), "the goroutine mentions %s, which is not a variable of the enclosing function", id.Name)
+			}
+			seen[id.Name] = true
+			if !f.isState(id.Name) {
+				names = append(names, id.Name)
+			}
+			return true
+		})
+		sort.SliceStable(names, func(i, j int) bool { return e.vars[names[i]].seq < e.vars[names[j]].seq })
+		// a closure shares its variables: reading them as the values at the go statement is
+		// right only if nobody assigns them afterwards (neither the goroutine nor the function)
+		assignedIn := func(root ast.Node, from token.Pos) map[string]token.Pos {
+			m := map[string]token.Pos{}
+			ast.Inspect(root, func(n ast.Node) bool {
+				switch n := n.(type) {
+				case *ast.AssignStmt:
+					if n.Pos() >= from {
+						for _, l := range n.Lhs {
+							if id, ok := unparen(l).(*ast.Ident); ok && n.Tok == token.DEFINE && id.Obj != nil && id.Obj.Pos() == id.Pos() {
+								continue // a new variable
+							}
+							if r := rootIdent(l); r != "" {
+								m[r] = n.Pos()
+							}
+						}
+					}
+				case *ast.IncDecStmt:
+					if n.Pos() >= from {
+						if r := rootIdent(n.X); r != "" {
+							m[r] = n.Pos()
+						}
+					}
+				case *ast.UnaryExpr:
+					if n.Op == token.AND && n.Pos() >= from {
+						if r := rootIdent(n.X); r != "" {
+							m[r] = n.Pos()
+						}
+					}
+				}
+				return true
+			})
+			return m
+		}
+		later := assignedIn(f.fi.decl.Body, s.Pos())
+		for _, n := range names {
+			v := e.vars[n]
+			if v.alias != nil || f.isRef(v.typ) {
+				t.fail(s.Pos(), "the goroutine captures %s of reference type %s / an alias (sharing is not modelled)", n, v.typ)
+			}
+			if p, bad := later[n]; bad {
+				t.fail(p, "%s is captured by the goroutine started at line %d and assigned afterwards", n, t.fset.Position(s.Pos()).Line)
+			}
+		}
+		name := f.fi.coq + "_go"
+		for _, o := range t.spawned {
+			if o.coq == name {
+				t.fail(s.Pos(), "a second go statement in %s", f.fi.coq)
+			}
+		}
+		g = &funcInfo{synth: true, coq: name, spawnedBy: f.fi.coq, captured: names}
+		g.cfg = FuncCfg{Recv: f.fi.cfg.Recv, Name: name, Coq: name, State: f.fi.cfg.State}
+		g.decl = &ast.FuncDecl{Recv: f.fi.decl.Recv, Name: &ast.Ident{Name: name, NamePos: s.Pos()},
+			Type: &ast.FuncType{Func: s.Pos(), Params: &ast.FieldList{}}, Body: lit.Body}
+		if f.fi.cfg.State != "" {
+			for _, p := range f.fi.params {
+				if p.name == f.fi.cfg.State {
+					g.params = append(g.params, p)
+				}
+			}
+		}
+		for _, n := range names {
+			g.params = append(g.params, fieldInfo{n, e.vars[n].typ})
+		}
+		t.reserved[name] = true
+		t.reserved[name+"_args"] = true
+		t.reserved["mk_"+name+"_args"] = true
+		t.spawned[s.Pos()] = g
+		// the record of captured values
+		var b strings.Builder
+		fmt.Fprintf(&b, "(* the values captured by the goroutine %s starts\n   %s *)\nRecord %s_args := mk_%s_args {\n", f.fi.coq, t.srcInfo(s.Pos(), s.End()), name, name)
+		for i, n := range names {
+			sep := ";"
+			if i == len(names)-1 {
+				sep = ""
+			}
+			fmt.Fprintf(&b, "  %s_args_%s : %s%s\n", name, n, t.coqType(s.Pos(), e.vars[n].typ), sep)
+			t.reserved[name+"_args_"+n] = true
+		}
+		b.WriteString("}.\n")
+		t.out = append(t.out, b.String())
+		t.translateFunc(g, s.Pos())
+		if g.emits || g.spawns {
+			t.fail(s.Pos(), "a goroutine that emits events / starts goroutines")
+		}
+		t.spawnOrder = append(t.spawnOrder, g)
+	}
+	if f.emits || f.sawEmit {
+		t.fail(s.Pos(), "go statement in a function that emits events")
+	}
+	f.sawSpawn = true
+	f.spawnT = g.coq + "_args"
+	parts := []string{"mk_" + g.coq + "_args"}
+	for _, n := range g.captured {
+		parts = append(parts, paren(e.vars[n].coq))
+	}
+	return fmt.Sprintf("%slet spawned_ := spawned_ ++ [%s] in\n", sp(ind), strings.Join(parts, " ")) + k(e, ind)
+}
+
+// otherMention: a mention of the variable of [id], at a source position in (from, to), that
+// is not the x of `x.(*T).field`
+func (f *fctx) otherMention(id *ast.Ident, from, to token.Pos) token.Pos {
+	found := token.NoPos
+	allowed := map[*ast.Ident]bool{}
+	ast.Inspect(f.fi.decl.Body, func(n ast.Node) bool {
+		if sel, ok := n.(*ast.SelectorExpr); ok {
+			if ta, ok := unparen(sel.X).(*ast.TypeAssertExpr); ok && ta.Type != nil {
+				if x, ok := unparen(ta.X).(*ast.Ident); ok {
+					allowed[x] = true
+				}
+			}
+		}
+		if x, ok := n.(*ast.Ident); ok && x.Name == id.Name && x.Obj == id.Obj && !allowed[x] &&
+			x.Pos() > from && x.Pos() < to && !found.IsValid() {
+			found = x.Pos()
+		}
+		return true
+	})
+	return found
+}
+
+// ---------------------------------------------------------------- switch
+
+// switch tag { case a, b: …  case c: …  default: … }  — the tag is evaluated once, the cases
+// are compared in order with the tag type's equality; no fallthrough, no init statement, no
+// tagless switch; a `break` inside is refused (BranchStmt outside a loop).
+func (f *fctx) switchStmt(s *ast.SwitchStmt, e *env, ind int, k cont) string {
+	t := f.t
+	if s.Init != nil || s.Tag == nil {
+		t.fail(s.Pos(), "switch with an init statement / without a tag")
+	}
+	g0 := len(f.guards)
+	tag, tagT := f.expr(s.Tag, e)
+	gs := f.takeGuards(g0)
+	eq := t.eqb(s.Tag.Pos(), tagT)
+	type clause struct {
+		conds []string
+		body  []ast.Stmt
+	}
+	var clauses []clause
+	var def *clause
+	for _, st := range s.Body.List {
+		cc := st.(*ast.CaseClause)
+		for _, b := range cc.Body {
+			if br, isBr := b.(*ast.BranchStmt); isBr && br.Tok == token.FALLTHROUGH {
+				t.fail(br.Pos(), "fallthrough")
+			}
+		}
+		if cc.List == nil {
+			if def != nil {
+				t.fail(cc.Pos(), "two default clauses")
+			}
+			def = &clause{body: cc.Body}
+			continue
+		}
+		c := clause{body: cc.Body}
+		for _, x := range cc.List {
+			g1 := len(f.guards)
+			v, vt := f.expr(x, e)
+			if len(f.guards) != g1 {
+				t.fail(x.Pos(), "a case expression that can panic")
+			}
+			ty, ok := unify(tagT, vt)
+			if !ok || ty != defaultType(tagT) && ty != tagT {
+				t.fail(x.Pos(), "case of Go type %s in a switch on %s", vt, tagT)
+			}
+			c.conds = append(c.conds, v)
+		}
+		clauses = append(clauses, c)
+	}
+	after := func(inner *env, ind2 int) string { return k(mergeFresh(e, inner), ind2) }
+	return f.guarded(gs, ind, func(ind int) string {
+		e1, tagName := e.bind("tag_", tagT)
+		var build func(i int, ind int) string
+		build = func(i int, ind int) string {
+			if i == len(clauses) {
+				if def != nil {
+					return f.block(def.body, e1, ind, after)
+				}
+				return k(e, ind)
+			}
+			c := clauses[i]
+			cond := fmt.Sprintf("%s %s %s", eq, tagName, paren(c.conds[0]))
+			for _, v := range c.conds[1:] {
+				cond = fmt.Sprintf("orb (%s) (%s %s %s)", cond, eq, tagName, paren(v))
+			}
+			return fmt.Sprintf("%sif %s then\n%s\n%selse\n%s", sp(ind), cond, f.block(c.body, e1, ind+2, after), sp(ind), build(i+1, ind+2))
+		}
+		return fmt.Sprintf("%slet %s := %s in\n", sp(ind), tagName, tag) + build(0, ind)
+	})
 }
